@@ -238,6 +238,11 @@ func codecFor(m *rec.Rec) (*pktCodec, error) {
 			return nil, err
 		}
 		read := func(d *protocol.DHCP) ([]byte, int, error) {
+			// first an encode of an equal message into a destination that is too short (a caller's mistake that must
+			// stay without consequence for later encodes), then the real one
+			if twin, terr := lib.BuildDHCP(m); terr == nil {
+				twin.Read(make([]byte, 100+int(m.U("xid")%150)))
+			}
 			buf := make([]byte, 4096)
 			n, err := d.Read(buf)
 			return buf[:n], int(d.Len()), err
